@@ -80,8 +80,11 @@ func VerifC03Joins() {
 	scope := NewReferenceScope(tx)
 	na := 1 + verifChoice("na", verifBound(2, 3))
 	nb := 1 + verifChoice("nb", 2)
-	if verifChoice("emptyb", 4) == 0 {
+	switch verifChoice("emptyb", 5) { // either side may have no rows at all
+	case 0:
 		nb = 0
+	case 1:
+		na = 0
 	}
 	ka, pa := verifKeys("ka", na)
 	kb, pb := verifKeys("kb", nb)
